@@ -61,6 +61,11 @@ pub trait Subject {
     fn get(&mut self, k: u32) -> Option<(u32, u32)>;
     fn contains(&mut self, k: u32) -> bool;
     fn iter(&mut self) -> Vec<(u32, u32, u32)>;
+    /// items yielded before and after invalidate_all() was called in the middle of one
+    /// iteration (None where the borrow rules make that impossible)
+    fn iter_with_invalidate_all(&mut self, after: usize) -> Option<(Vec<(u32, u32, u32)>, Vec<(u32, u32, u32)>)>;
+    /// the (key, value sequence number) pairs listed by the cache's `Debug` output
+    fn debug_pairs(&mut self) -> Vec<(u32, u32)>;
     /// items yielded before and after the clock was advanced in the middle of one iteration
     fn iter_with_advance(&mut self, after: usize, ns: u64) -> (Vec<(u32, u32, u32)>, Vec<(u32, u32, u32)>);
     fn invalidate(&mut self, k: u32);
@@ -75,6 +80,40 @@ pub trait Subject {
     fn walk(&self, quiescent: bool) -> Result<(), String>;
     fn freq(&self, k: u32) -> u8;
     fn policy(&self) -> (Option<u64>, Option<Duration>, Option<Duration>);
+}
+
+
+fn parse_debug(s: &str) -> Vec<(u32, u32)> {
+    // "{k3: v7(w1), k0: v2(w0)}"
+    let mut out = Vec::new();
+    let b = s.as_bytes();
+    let mut i = 0;
+    while i < b.len() {
+        if b[i] == b'k' && i + 1 < b.len() && b[i + 1].is_ascii_digit() {
+            let mut j = i + 1;
+            let mut k = 0u32;
+            while j < b.len() && b[j].is_ascii_digit() {
+                k = k * 10 + (b[j] - b'0') as u32;
+                j += 1;
+            }
+            // expect ": v<seq>"
+            if j + 3 < b.len() && &b[j..j + 3] == b": v" {
+                let mut l = j + 3;
+                let mut v = 0u32;
+                while l < b.len() && b[l].is_ascii_digit() {
+                    v = v * 10 + (b[l] - b'0') as u32;
+                    l += 1;
+                }
+                out.push((k, v));
+                i = l;
+                continue;
+            }
+            i = j;
+        } else {
+            i += 1;
+        }
+    }
+    out
 }
 
 pub fn weight_of(cfg: &Cfg, w: u32) -> u32 {
@@ -153,6 +192,12 @@ impl<S: std::hash::BuildHasher + Clone> Subject for UnsyncSubject<S> {
     }
     fn iter(&mut self) -> Vec<(u32, u32, u32)> {
         self.cache.iter().map(|(k, v)| (k.k, v.seq, v.w)).collect()
+    }
+    fn iter_with_invalidate_all(&mut self, _after: usize) -> Option<(Vec<(u32, u32, u32)>, Vec<(u32, u32, u32)>)> {
+        None
+    }
+    fn debug_pairs(&mut self) -> Vec<(u32, u32)> {
+        parse_debug(&format!("{:?}", self.cache))
     }
     fn iter_with_advance(&mut self, after: usize, ns: u64) -> (Vec<(u32, u32, u32)>, Vec<(u32, u32, u32)>) {
         let (mut a, mut b) = (Vec::new(), Vec::new());
@@ -334,6 +379,24 @@ impl<S: std::hash::BuildHasher + Clone + Send + Sync + 'static> Subject for Sync
             .iter()
             .map(|r| (r.key().k, r.value().seq, r.value().w))
             .collect()
+    }
+    fn iter_with_invalidate_all(&mut self, after: usize) -> Option<(Vec<(u32, u32, u32)>, Vec<(u32, u32, u32)>)> {
+        let (mut a, mut b) = (Vec::new(), Vec::new());
+        let mut it = self.cache.iter();
+        for _ in 0..after {
+            match it.next() {
+                Some(r) => a.push((r.key().k, r.value().seq, r.value().w)),
+                None => break,
+            }
+        }
+        self.cache.invalidate_all();
+        for r in it {
+            b.push((r.key().k, r.value().seq, r.value().w));
+        }
+        Some((a, b))
+    }
+    fn debug_pairs(&mut self) -> Vec<(u32, u32)> {
+        parse_debug(&format!("{:?}", self.cache))
     }
     fn iter_with_advance(&mut self, after: usize, ns: u64) -> (Vec<(u32, u32, u32)>, Vec<(u32, u32, u32)>) {
         let (mut a, mut b) = (Vec::new(), Vec::new());
